@@ -195,3 +195,58 @@ def param_path(e):
     if root[0] == "env" and fs:
         return fs[0], fs[1:]
     return None, []
+
+
+def awaits(ctx, body):
+    """[(bb, kind, name, key)] for every `.await` in a coroutine body: kind 'ws' = workspace coroutine
+    (key = its body key), 'ext' = library future (name = producing call / future type)"""
+    an = ctx.an(body)
+    out = []
+    for bb, t in body.calls():
+        if not dname(t).endswith("Future::poll"):
+            continue
+        if not body.in_macro(t, ("d:Await",)):
+            continue
+        c = t.callee
+        rk = c.get("resolved_key")
+        if rk and rk in ctx.prog.lib_bodies:
+            out.append((bb, "ws", short(c.get("resolved")), rk))
+            continue
+        e = an.operand_expr(t.args[0], (bb, "term"))
+        fut = an._await_of_poll(("call", c["def"], c.get("resolved"), (e,), bb, ()))
+        f = strip(fut[1]) if fut[0] == "await" else strip(fut)
+        # look through wrappers that only decorate a future
+        for _ in range(6):
+            if f[0] == "call" and short(f[1]).endswith(("Instrument::instrument", "IntoFuture::into_future", "WithSubscriber::with_subscriber")) and f[3]:
+                f = strip(f[3][0])
+            else:
+                break
+        if f[0] == "agg" and f[1].startswith(("coroutine:", "closure:")) and f[1].split(":", 1)[1] in ctx.prog.lib_bodies:
+            out.append((bb, "ws", f[1].split(":", 1)[1], f[1].split(":", 1)[1]))
+        elif f[0] == "select":
+            out.append((bb, "select", "select!", f))
+        elif f[0] == "call":
+            wk = _ws_coroutine_of(ctx, f)
+            if wk:
+                out.append((bb, "ws", short(f[2] or f[1]), wk))
+            else:
+                out.append((bb, "ext", short(f[2] or f[1]), f))
+        else:
+            out.append((bb, "ext", short(c.get("resolved") or c["def"]), f))
+    return out
+
+
+def _ws_coroutine_of(ctx, callexpr):
+    """body key of the coroutine created by a call to a workspace `async fn` (by pretty name)"""
+    idx = getattr(ctx.prog, "_name_index", None)
+    if idx is None:
+        idx = {}
+        for k, b in ctx.prog.lib_bodies.items():
+            idx.setdefault(b.name, k)
+        ctx.prog._name_index = idx
+    for nm in (callexpr[2], callexpr[1]):
+        if nm and nm in idx:
+            k = idx[nm] + "::{closure#0}"
+            if k in ctx.prog.lib_bodies:
+                return k
+    return None
